@@ -9,6 +9,6 @@ grep -c '^VIOLATION' /tmp/try_patch.$$ | sed 's/^/violation lines: /'
 grep 'violated obligation' /tmp/try_patch.$$ | cut -c1-160 | sort | uniq -c | sort -rn | head -${TAILN:-6}
 tail -2 /tmp/try_patch.$$ | cut -c1-400
 rm -f /tmp/try_patch.$$
-git -C /repo checkout -- .
+git -C /repo checkout -- .; git -C /repo clean -fdq src tests >/dev/null 2>&1; git -C /repo clean -fdqx src/geophires_x -e all_messages_conf.log -e __pycache__ >/dev/null 2>&1
 git -C /repo status --short | grep -v '^?? -q'
 echo "exit=$RC"
